@@ -60,6 +60,14 @@ PROPS = {
                       "tlx/algorithm/multiway_merge_splitting.hpp", "tlx/algorithm/multisequence_partition.hpp",
                       "tlx/algorithm/multiway_merge.hpp", "tlx/algorithm/merge_advance.hpp", "tlx/container/loser_tree.hpp"],
                 stub=["std::thread (scheduler shim over real ::std::thread)"]),
+    "C04": dict(harness="c04_ps5", concurrent=True,
+                runs=dict(quick=dict(plain=40000, asan=8000, tsan=8000),
+                          thorough=dict(plain=800000, asan=160000, tsan=160000)),
+                real=["tlx/sort/strings_parallel.hpp", "tlx/sort/strings/parallel_sample_sort.hpp", "tlx/sort/strings/sample_sort_tools.hpp",
+                      "tlx/sort/strings/string_ptr.hpp", "tlx/sort/strings/string_set.hpp", "tlx/sort/strings/insertion_sort.hpp",
+                      "tlx/thread_pool.cpp", "tlx/thread_pool.hpp", "tlx/multi_timer.cpp", "tlx/logger/core.cpp", "tlx/die/core.cpp"],
+                stub=["std::thread", "std::mutex", "std::condition_variable", "std::atomic", "std::minstd_rand (seeded from the run, not from a heap address)",
+                      "std::thread::hardware_concurrency (= worker count of the run)"]),
 }
 
 SIM_NAMES = ["strategy", "param", "pct_k", "spurious_permille", "spurious_budget", "notify_choice",
